@@ -196,6 +196,7 @@ type pathCtx struct {
 	approx                                               int64
 	ufCache                                              map[string]*Term
 	locksHeld                                            int
+	pools                                                map[*value][]value
 	sharedWrites                                         []string
 	sharedWriteNames                                     map[string]bool
 	jsonSent                                             map[int64]*Term
